@@ -375,6 +375,19 @@ func gen(seed int64, n int, tier string) []interface{} {
 			}
 			in.Methods = append(in.Methods, m)
 		}
+		// overloads: a second (third) method of the same full name with calls of its own; a map keyed by the full name
+		// keeps one of them, a pass over all functions sees every call site
+		if r.Intn(2) == 0 {
+			for k := 1 + r.Intn(3); k > 0; k-- {
+				src := in.Methods[r.Intn(len(in.Methods))]
+				ov := Method{Pkg: src.Pkg, Node: src.Node, Name: src.Name, Calls: []Callee{}}
+				for j := 1 + r.Intn(3); j > 0; j-- {
+					ov.Calls = append(ov.Calls, decl[r.Intn(len(decl))])
+				}
+				at := r.Intn(len(in.Methods) + 1)
+				in.Methods = append(in.Methods[:at], append([]Method{ov}, in.Methods[at:]...)...)
+			}
+		}
 		if r.Intn(3) == 0 {
 			// DI: an interface q.r.Iface implemented by a declared class, or class -> class
 			d := decl[r.Intn(len(decl))]
